@@ -48,9 +48,12 @@ impl BoxedMontyParams {
 
         // `R mod modulus` where `R = 2^BITS`.
         // Represents 1 in Montgomery form.
-        let one = BoxedUint::max(bits_precision)
+        let mut one = BoxedUint::max(bits_precision)
             .rem(modulus.as_nz_ref())
             .wrapping_add(&BoxedUint::one());
+        // For the modulus 1 this is `1`, not the reduced `R mod 1 = 0`.
+        let one_is_modulus = subtle::ConstantTimeEq::ct_eq(&one, modulus.as_ref());
+        one.conditional_set_zero(one_is_modulus);
 
         // `R^2 mod modulus`, used to convert integers to Montgomery form.
         let r2 = one
@@ -91,9 +94,12 @@ impl BoxedMontyParams {
 
         // `R mod modulus` where `R = 2^BITS`.
         // Represents 1 in Montgomery form.
-        let one = BoxedUint::max(bits_precision)
+        let mut one = BoxedUint::max(bits_precision)
             .rem_vartime(modulus.as_nz_ref())
             .wrapping_add(&BoxedUint::one());
+        // For the modulus 1 this is `1`, not the reduced `R mod 1 = 0`.
+        let one_is_modulus = subtle::ConstantTimeEq::ct_eq(&one, modulus.as_ref());
+        one.conditional_set_zero(one_is_modulus);
 
         // `R^2 mod modulus`, used to convert integers to Montgomery form.
         let r2 = one
